@@ -1138,6 +1138,12 @@ def resolve_cnamedtuple_fieldnames(value):
     # https://github.com/python/cpython/blob/53b9e1a1c1d86187ad6fbee492b697ef8be74205/Objects/structseq.c#L168-L241
     # As long as the repr is implemented like that, we can count
     # on this function to work.
+    # Python 3.10+ exposes the visible field names on the class. Unlike the
+    # repr they do not depend on the elements of this particular value.
+    match_args = getattr(type(value), '__match_args__', None)
+    if match_args is not None and len(match_args) == len(value):
+        return tuple(match_args)
+
     expr_node = ast.parse(repr(value), mode='eval')
     call_node = expr_node.body
     return tuple(
